@@ -164,8 +164,13 @@ def rule_err(ctx):
         rets = [e for e in tr.events if e.kind == "ret" and as_term(e.val) is not None and as_term(e.val).is_call("Err")]
         divs = [e for e in tr.events if e.kind == "div"]
         res.instance("%s : empty-component test before division by nk" % key)
+        mins = [e for e in tr.events if e.kind == "call" and e.name == "min" and e.method and e.order < (min(x.order for x in rets) if rets else 0)]
+        raw = [e for e in mins if as_term(e.recv) is not None and as_term(e.recv).is_call("sum_axis")]
         if rets and divs and min(e.order for e in rets) < min(e.order for e in divs) and any("call:min(" in g[1] for e in rets for g in e.guards):
-            res.ok()
+            if mins and not raw:
+                res.violate("%s : empty-cluster-guard-on-floored-mass" % key, "the empty-component test reads `%s`, not the raw column sums of the responsibilities: once a floor has been added to the mass the test `min < eps` can never fire and an emptied component is returned as a model" % k(mins[0].recv)[:80], fn_loc(f, mins[0].node["ln"]))
+            else:
+                res.ok()
         else:
             res.violate("%s : empty-cluster-guard" % key, "no `nk.min() < eps -> return Err(EmptyCluster)` test before the division by the component weights", fn_loc(f))
     return res.finish(8)
